@@ -92,11 +92,24 @@ func runC04(c *Ctx) {
 		okRem := len(rem) == 1 && Term(rem[0].(*ssa.Call).Call.Args[0]) == "room" && li.HoldsW(rem[0], "a.mu") && HasGuard(rem[0], `a\.sids\[sid\]#1==true`)
 		c.Ob("C04-D1", name+"/sids-side", fn.Pos(), okRem, "Delete must remove the room from sids[sid] under a.mu")
 		dl := CallsTo(Calls(fn), `\(\*adapter\.inMemoryAdapter\)\.delete`)
-		okDl := len(dl) == 1 && Term(dl[0].Arg(0)) == "sid" && Term(dl[0].Arg(1)) == "room" && li.HoldsW(dl[0].Instr, "a.mu")
-		c.Ob("C04-D1", name+"/rooms-side", fn.Pos(), okDl, "Delete must remove sid from rooms[room] (a.delete(sid, room)) under a.mu")
-		if len(dl) == 1 {
-			skip, trail := CanReachExitAvoiding(fn, nil, func(in ssa.Instruction) bool { return in == dl[0].Instr })
-			c.Ob("C04-D1", name+"/rooms-side-always", dl[0].Pos(), !skip, "a path through Delete skips the rooms index: "+trailString(p, trail))
+		if p.FnOpt("adapter", "inMemoryAdapter.delete") != nil {
+			okDl := len(dl) == 1 && Term(dl[0].Arg(0)) == "sid" && Term(dl[0].Arg(1)) == "room" && li.HoldsW(dl[0].Instr, "a.mu")
+			c.Ob("C04-D1", name+"/rooms-side", fn.Pos(), okDl, "Delete must remove sid from rooms[room] (a.delete(sid, room)) under a.mu")
+			if len(dl) == 1 {
+				skip, trail := CanReachExitAvoiding(fn, nil, func(in ssa.Instruction) bool { return in == dl[0].Instr })
+				c.Ob("C04-D1", name+"/rooms-side-always", dl[0].Pos(), !skip, "a path through Delete skips the rooms index: "+trailString(p, trail))
+			}
+		} else {
+			// the helper was inlined: the rooms-side removal itself must be here, under a.mu, on every path
+			rs := roomSideRemoval(c, "C04-D1", name, fn)
+			for _, in := range rs {
+				c.Ob("C04-D1", name+"/rooms-side", in.Pos(), li.HoldsW(in, "a.mu"), "the rooms index must be updated under a.mu")
+			}
+			lk := findInstrs(fn, func(in ssa.Instruction) bool { l, ok := in.(*ssa.Lookup); return ok && Term(l.X) == "a.rooms" })
+			if len(lk) >= 1 {
+				skip, trail := CanReachExitAvoiding(fn, nil, func(in ssa.Instruction) bool { return in == lk[0] })
+				c.Ob("C04-D1", name+"/rooms-side-always", lk[0].Pos(), !skip, "a path through Delete skips the rooms index: "+trailString(p, trail))
+			}
 		}
 		bad := findInstrs(fn, func(in ssa.Instruction) bool { return isBuiltinDelete(in, "a.sids") })
 		pos := fn.Pos()
@@ -105,14 +118,8 @@ func runC04(c *Ctx) {
 		}
 		c.Ob("C04-D1", name+"/keeps-sid-entry", pos, len(bad) == 0, "Delete removes the whole sids[sid] entry: a connected socket that left its last room would be unknown to broadcasts without target rooms (they iterate a.sids) and to SocketRooms")
 	}
-	{
-		fn := p.Fn("adapter", "inMemoryAdapter.delete")
-		name := "adapter.inMemoryAdapter.delete"
-		rem := findInstrs(fn, setCallPred("Remove", `a\.rooms\[room\]#0`))
-		c.Ob("C04-D1", name+"/removes-sid", fn.Pos(), len(rem) == 1 && Term(rem[0].(*ssa.Call).Call.Args[0]) == "sid" && HasGuard(rem[0], `a\.rooms\[room\]#1==true`), "delete must remove sid from rooms[room]")
-		dd := findInstrs(fn, func(in ssa.Instruction) bool { return isBuiltinDelete(in, "a.rooms") })
-		okd := len(dd) == 1 && Term(dd[0].(*ssa.Call).Call.Args[1]) == "room" && HasGuard(dd[0], `\(a\.rooms\[room\]#0\.Cardinality\(\) == 0\)==true`)
-		c.Ob("C04-D1", name+"/drops-empty-room", fn.Pos(), okd, "an emptied room set must be removed from a.rooms — and only an emptied one")
+	if fn := p.FnOpt("adapter", "inMemoryAdapter.delete"); fn != nil {
+		roomSideRemoval(c, "C04-D1", "adapter.inMemoryAdapter.delete", fn)
 	}
 	{
 		fn := p.Fn("adapter", "inMemoryAdapter.DeleteAll")
@@ -123,8 +130,12 @@ func runC04(c *Ctx) {
 		if len(each) == 1 {
 			if mc, ok := each[0].(*ssa.Call).Call.Args[0].(*ssa.MakeClosure); ok {
 				cf := mc.Fn.(*ssa.Function)
-				d := CallsTo(Calls(cf), `\(\*adapter\.inMemoryAdapter\)\.delete`)
-				okEach = len(d) == 1 && Term(d[0].Arg(0)) == "sid" && Term(d[0].Arg(1)) == "room" && len(GuardTerms(d[0].Instr)) == 0
+				if p.FnOpt("adapter", "inMemoryAdapter.delete") != nil {
+					d := CallsTo(Calls(cf), `\(\*adapter\.inMemoryAdapter\)\.delete`)
+					okEach = len(d) == 1 && Term(d[0].Arg(0)) == "sid" && Term(d[0].Arg(1)) == "room" && len(GuardTerms(d[0].Instr)) == 0
+				} else {
+					okEach = len(roomSideRemoval(c, "C04-D1", name+"$each", cf)) == 2
+				}
 				eachNeverStops(c, "C04-D1", name+"/visits-every-room", cf)
 			}
 		}
@@ -461,4 +472,23 @@ func eachNeverStops(c *Ctx, rule, name string, f *ssa.Function) {
 
 func regexpMatch(pattern, s string) bool {
 	return regexpMustCompile(pattern).MatchString(s)
+}
+
+// roomSideRemoval checks, inside fn, the rooms-side half of a removal: sid is
+// removed from rooms[room] when that set exists, and the set is dropped from
+// a.rooms exactly when it became empty.  Returns the two instructions.
+func roomSideRemoval(c *Ctx, rule, name string, fn *ssa.Function) []ssa.Instruction {
+	rem := findInstrs(fn, setCallPred("Remove", `a\.rooms\[room\]#0`))
+	c.Ob(rule, name+"/removes-sid", fn.Pos(), len(rem) == 1 && Term(rem[0].(*ssa.Call).Call.Args[0]) == "sid" && HasGuard(rem[0], `a\.rooms\[room\]#1==true`), "sid must be removed from rooms[room] (when that room exists)")
+	dd := findInstrs(fn, func(in ssa.Instruction) bool { return isBuiltinDelete(in, "a.rooms") })
+	okd := len(dd) == 1 && Term(dd[0].(*ssa.Call).Call.Args[1]) == "room" && HasGuard(dd[0], `\(a\.rooms\[room\]#0\.Cardinality\(\) == 0\)==true`)
+	c.Ob(rule, name+"/drops-empty-room", fn.Pos(), okd, "an emptied room set must be removed from a.rooms — and only an emptied one")
+	var out []ssa.Instruction
+	if len(rem) == 1 {
+		out = append(out, rem[0])
+	}
+	if len(dd) == 1 {
+		out = append(out, dd[0])
+	}
+	return out
 }
